@@ -1,6 +1,6 @@
 (* C04 — pinned property theorems. This file contains statements, `exact`, Print Assumptions and
    non-vacuity Examples only. The pins in tools/pins/C04.v re-check the statements.
-   The model (Model.v) follows src/substream/mod.rs after the three `fix:` commits. *)
+   The model (Model.v) follows src/substream/mod.rs after the `fix:` commits F-C04a..f. *)
 From Coq Require Import List NArith Bool.
 From V.gen Require Consts.
 From V.C04 Require Import Model Proofs.
@@ -49,63 +49,116 @@ Theorem C04_reader_roundtrip :
 Proof. exact reader_roundtrip. Qed.
 Print Assumptions C04_reader_roundtrip.
 
-(* A message that does not fit the codec is refused by both send APIs with PermissionDenied;
-   nothing is queued, nothing reaches the carrier, no carrier call is made. *)
+(* A message that does not fit the codec is refused by both send APIs with PermissionDenied and
+   none of its bytes reaches the carrier. (send_framed first writes out what the Sink had queued;
+   with nothing queued it returns at once without any carrier call.) *)
 Theorem C04_sender_refuses :
-  forall (c : codec) (w : wstate) (m : list N) (script : list wev) (sent0 : list N),
+  forall (c : codec) (w : wstate) (m : list N) (script : list wev) (sent0 : list N) r np w' sent' script',
   fitsb c m = false ->
-  start_send c w m = (WDenied, w) /\ send_framed c script m sent0 = (WDenied, 0, sent0, script).
+  start_send c w m = (WDenied, w) /\
+  (send_framed c script w m sent0 = (r, np, w', sent', script') -> pbytes w = lenN (qbytes w) ->
+   r <> WOk /\ sent' ++ qbytes w' = sent0 ++ qbytes w /\
+   (queue_nonempty w = false -> r = WDenied /\ sent' = sent0 /\ script' = script /\ w' = w)).
 Proof. exact sender_refuses. Qed.
 Print Assumptions C04_sender_refuses.
 
-(* poll_flush: whatever the carrier does, bytes only move from the queue to the carrier in order
-   (nothing lost, duplicated or reordered, unless the carrier failed), and Ready(Ok) is reported
-   only when nothing at all is queued any more. *)
+(* poll_flush, whatever the carrier does — stalls, errors, accepting 0 bytes — only moves bytes
+   from the head of the queue to the carrier (nothing lost, duplicated, reordered; a frame whose
+   write failed stays queued at the position reached), and reports Ready(Ok) only when nothing at
+   all is queued any more. *)
 Theorem C04_flush_complete :
   forall (script : list wev) (w : wstate) (sent0 : list N) r w' sent' script',
   flush script w sent0 = (r, w', sent', script') ->
   pbytes w = lenN (qbytes w) ->
   (exists d, sent' = sent0 ++ d) /\
-  (r <> WIo -> pbytes w' = lenN (qbytes w') /\ sent' ++ qbytes w' = sent0 ++ qbytes w) /\
+  pbytes w' = lenN (qbytes w') /\ sent' ++ qbytes w' = sent0 ++ qbytes w /\
   (r = WOk -> frames w' = [] /\ curf w' = None /\ pbytes w' = 0).
 Proof. exact flush_spec. Qed.
 Print Assumptions C04_flush_complete.
 
-(* Every history of sink operations (poll_ready / start_send / poll_flush in any order, any
-   carrier script without a carrier error being reported): what the carrier holds followed by what
-   is queued is exactly the encoding of the accepted messages, in order. *)
-Theorem C04_sink_stream :
+(* Both send paths, freely mixed, with poll_ready / poll_flush / poll_close / close in any order
+   and any carrier behaviour (stalls, errors, zero-length accepts): as long as every send_framed
+   call ran to completion (Ok or PermissionDenied), what the carrier holds followed by what is
+   queued is exactly the concatenation of the encodings of the accepted messages, in the order of
+   the calls — whole frames, each exactly once, never interleaved, never overtaking. *)
+Theorem C04_mixed_paths_in_order :
   forall (bp : N) (c : codec) (script : list wev) (ops : list op) rs s',
-  forallb sink_op ops = true ->
   run_ops bp c (init_sys script) ops = (rs, s') ->
-  Forall (fun r => fst r <> WIo) rs ->
+  Forall2 good ops rs ->
   pbytes (ws s') = lenN (qbytes (ws s')) /\
   sent s' ++ qbytes (ws s') = wire_of c (accepted c ops).
-Proof. exact sink_stream. Qed.
-Print Assumptions C04_sink_stream.
+Proof. exact mixed_stream. Qed.
+Print Assumptions C04_mixed_paths_in_order.
 
 (* ... and when such a history ends with a poll_flush that reports completion, the whole
    encoding is with the carrier: the peer needs no further action by the sender. *)
-Theorem C04_sink_flush_complete :
+Theorem C04_hist_flush_complete :
   forall (bp : N) (c : codec) (script : list wev) (ops : list op) rs r s',
   run_ops bp c (init_sys script) (ops ++ [OFlush]) = (rs ++ [r], s') ->
-  length rs = length ops ->
-  forallb sink_op ops = true -> Forall (fun x => fst x <> WIo) rs -> fst r = WOk ->
+  Forall2 good ops rs -> fst r = WOk ->
   sent s' = wire_of c (accepted c ops) /\
   frames (ws s') = [] /\ curf (ws s') = None /\ pbytes (ws s') = 0.
-Proof. exact sink_flush_complete. Qed.
-Print Assumptions C04_sink_flush_complete.
+Proof. exact hist_flush_complete. Qed.
+Print Assumptions C04_hist_flush_complete.
 
-(* send_framed: the carrier receives a prefix of the frame, the whole frame when Ok is returned;
-   the sink queue is not touched. *)
+(* send_framed from any Sink state: the queued bytes go out first, then a prefix of the frame —
+   the whole frame, with nothing left queued, exactly when Ok is returned. *)
 Theorem C04_send_framed_complete :
-  forall (c : codec) (script : list wev) (m : list N) (sent0 : list N) r np sent' script',
-  send_framed c script m sent0 = (r, np, sent', script') ->
-  (fitsb c m = false -> r = WDenied /\ sent' = sent0 /\ script' = script) /\
-  (fitsb c m = true ->
-     r <> WDenied /\ exists d e, sent' = sent0 ++ d /\ frame c m = d ++ e /\ (r = WOk -> e = [])).
+  forall (c : codec) (script : list wev) (w : wstate) (m : list N) (sent0 : list N) r np w' sent' script',
+  send_framed c script w m sent0 = (r, np, w', sent', script') ->
+  pbytes w = lenN (qbytes w) ->
+  pbytes w' = lenN (qbytes w') /\
+  (exists d e, sent' ++ qbytes w' = sent0 ++ qbytes w ++ d /\ frame c m = d ++ e /\
+               (r = WOk -> e = [] /\ qbytes w' = []) /\ (fitsb c m = false -> d = [])) /\
+  (r = WOk -> fitsb c m = true) /\ (r = WDenied -> fitsb c m = false).
 Proof. exact send_framed_spec. Qed.
 Print Assumptions C04_send_framed_complete.
+
+(* Closing. Sink::poll_close is poll_shutdown of the carrier and Substream::close(self) is its
+   shutdown: a close call hands no byte to the carrier and does not touch the queue (frames that
+   were only start_send'ed are not written by it — callers flush first); the carrier has completed
+   a shutdown exactly when poll_close reports Ok. *)
+Theorem C04_close_sends_nothing :
+  forall (script : list wev) (w : wstate) (sent0 : list N),
+  (forall r w' sent' script' sh,
+     poll_close script w sent0 = (r, w', sent', script', sh) ->
+     w' = w /\ sent' = sent0 /\ (r = WOk <-> sh = true)) /\
+  (forall r np w' sent' script' sh,
+     close_all script w sent0 = (r, np, w', sent', script', sh) ->
+     w' = w /\ sent' = sent0 /\ (r = WOk -> Forall clean_ev script -> sh = true)).
+Proof. intros; split; intros; [eapply poll_close_spec|eapply close_all_spec]; eassumption. Qed.
+Print Assumptions C04_close_sends_nothing.
+
+(* A history whose last flush reported completion, then a poll_close that reports completion:
+   everything handed over is with the carrier, nothing is queued, the carrier is shut down
+   (after the last byte). *)
+Theorem C04_close_after_flush_complete :
+  forall (bp : N) (c : codec) (script : list wev) (ops : list op) rs rf rc s',
+  run_ops bp c (init_sys script) (ops ++ [OFlush; OClose]) = (rs ++ [rf; rc], s') ->
+  Forall2 good ops rs -> fst rf = WOk -> fst rc = WOk ->
+  sent s' = wire_of c (accepted c ops) /\ qbytes (ws s') = [] /\ shut s' = true.
+Proof. exact hist_close_after_flush. Qed.
+Print Assumptions C04_close_after_flush_complete.
+
+(* The same for Substream::close(self), which ignores errors: over a carrier that does not fail. *)
+Theorem C04_close_all_after_flush_complete :
+  forall (bp : N) (c : codec) (script : list wev) (ops : list op) rs rf s1 np w' sent' script' sh,
+  run_ops bp c (init_sys script) (ops ++ [OFlush]) = (rs ++ [rf], s1) ->
+  Forall2 good ops rs -> fst rf = WOk ->
+  close_all (wscript s1) (ws s1) (sent s1) = (WOk, np, w', sent', script', sh) ->
+  Forall clean_ev (wscript s1) ->
+  sent' = wire_of c (accepted c ops) /\ qbytes w' = [] /\ sh = true.
+Proof. exact hist_close_all_after_flush. Qed.
+Print Assumptions C04_close_all_after_flush_complete.
+
+(* Observation (not a defect of the property: C04 speaks about sends and flushes reported
+   complete): a message that was start_send'ed but never flushed is dropped by close — the close
+   succeeds, the carrier is shut down, nothing was sent. *)
+Example C04_close_drops_unflushed :
+  let c := Varint None in
+  let '(rs, s') := run_ops 65536 c (init_sys (repeat (WChunk 100) 5)) [OSend (repeat 9 10); OClose] in
+  map fst rs = [WOk; WOk] /\ shut s' = true /\ sent s' = [] /\ pbytes (ws s') = 11.
+Proof. vm_compute. repeat split; reflexivity. Qed.
 
 (* Backpressure: poll_ready answers Ready(Ok) only with fewer than BACKPRESSURE_BOUNDARY bytes
    queued, so the queue never exceeds the boundary by more than one frame. *)
@@ -116,36 +169,84 @@ Theorem C04_backpressure :
 Proof. exact backpressure. Qed.
 Print Assumptions C04_backpressure.
 
-(* End to end through the sink: any history of sink operations over any write script, then any
-   reader schedule over what reached the carrier: frames come out as an initial segment of the
-   accepted messages, never a panic or a ReadFailure, and equal to them once everything was flushed
-   and read. *)
-Theorem C04_roundtrip_sink :
+(* End to end: any history of the six operations over any write script (every send_framed run
+   to completion), then any reader schedule over what reached the carrier: frames come out as an
+   initial segment of the accepted messages in call order, never a panic or a ReadFailure, and
+   equal to them once everything was flushed and read. *)
+Theorem C04_roundtrip :
   forall (bp : N) (c : codec) (wscript : list wev) (ops : list op) rs s'
          (rscript : list rdev) (polls : nat) outs st' wire' script',
-  forallb sink_op ops = true -> Forall small_op ops ->
+  Forall small_op ops ->
   run_ops bp c (init_sys wscript) ops = (rs, s') ->
-  Forall (fun r => fst r <> WIo) rs ->
+  Forall2 good ops rs ->
   run_reader polls c (init_r c) (sent s') rscript = (outs, st', wire', script') ->
   ~ In RPanic outs /\ ~ In RFail outs /\
   exists rest, accepted c ops = frames_of outs ++ rest /\
                (c <> Identity 0 -> qbytes (ws s') = [] -> wire' = [] -> rest = []).
-Proof. exact roundtrip_sink. Qed.
-Print Assumptions C04_roundtrip_sink.
+Proof. exact roundtrip_mixed. Qed.
+Print Assumptions C04_roundtrip.
 
-(* End to end through send_framed (every call driven to completion or refused). *)
-Theorem C04_roundtrip_framed :
-  forall (bp : N) (c : codec) (wscript : list wev) (ops : list op) rs s'
-         (rscript : list rdev) (polls : nat) outs st' wire' script',
-  forallb framed_op ops = true -> Forall small_op ops ->
-  run_ops bp c (init_sys wscript) ops = (rs, s') ->
-  Forall (fun r => fst r = WOk \/ fst r = WDenied) rs ->
-  run_reader polls c (init_r c) (sent s') rscript = (outs, st', wire', script') ->
-  ~ In RPanic outs /\ ~ In RFail outs /\
-  exists rest, accepted c ops = frames_of outs ++ rest /\
-               (c <> Identity 0 -> wire' = [] -> rest = []).
-Proof. exact roundtrip_framed. Qed.
-Print Assumptions C04_roundtrip_framed.
+(* Carrier errors are reported by the call that met them: a poll_flush that answers Ok or Pending
+   consumed no error event; the same for the write_all/flush loop of send_framed. *)
+Theorem C04_write_error_reported :
+  forall (script : list wev) (w : wstate) (sent0 : list N) r w' sent' script',
+  flush script w sent0 = (r, w', sent', script') -> r <> WIo ->
+  exists pre, script = pre ++ script' /\ Forall (fun e => e <> WErr) pre.
+Proof. exact flush_err_reported. Qed.
+Print Assumptions C04_write_error_reported.
+
+Theorem C04_send_framed_error_reported :
+  forall (ident : bool) (script : list wev) (bufs : list (list N)) (sent0 : list N) np r np' sent' script',
+  sf_run ident script bufs sent0 np = (r, np', sent', script') -> r = WOk \/ r = WPend ->
+  exists pre, script = pre ++ script' /\ Forall (fun e => e <> WErr) pre.
+Proof. exact sf_run_err_reported. Qed.
+Print Assumptions C04_send_framed_error_reported.
+
+(* Wake-ups: poll_flush / poll_next answer Pending only when their last carrier call answered
+   Pending (a Pending event consumed last, or the exhausted script, which answers Pending): the
+   carrier then holds the caller's waker. (The harness checks the same on the real code, with the
+   waker identity.) *)
+Theorem C04_pending_has_waker_write :
+  forall (script : list wev) (w : wstate) (sent0 : list N) w' sent' script',
+  flush script w sent0 = (WPend, w', sent', script') ->
+  (exists pre, script = pre ++ WPending :: script') \/ script' = [].
+Proof. exact flush_pending. Qed.
+Print Assumptions C04_pending_has_waker_write.
+
+Theorem C04_pending_has_waker_read :
+  forall (c : codec) (script : list rdev) (st : rstate) (wire : list N) st' wire' script',
+  poll_next c st wire script = (RPend, st', wire', script') ->
+  (exists pre, script = pre ++ EvPending :: script') \/ script' = [].
+Proof. exact poll_next_pending. Qed.
+Print Assumptions C04_pending_has_waker_read.
+
+(* Identity(0), as the code behaves: the reader never delivers a frame (a zero-length read is
+   taken for end of stream) and consumes nothing. *)
+Theorem C04_identity_zero :
+  forall (polls : nat) (wire : list N) (script : list rdev) outs st' wire' script',
+  run_reader polls (Identity 0) (init_r (Identity 0)) wire script = (outs, st', wire', script') ->
+  frames_of outs = [] /\ Forall (fun o => o = RPend \/ o = RClosed \/ o = RIoErr) outs /\ wire' = wire.
+Proof. exact identity_zero. Qed.
+Print Assumptions C04_identity_zero.
+
+(* UnsignedVarint(None), as the code behaves: every announced length 0 < n < 2^64 is allocated
+   as the read buffer as soon as its last length byte arrives, before any payload (the memory
+   bound of C04_receiver_total exists only for UnsignedVarint(Some max); see also C19). *)
+Theorem C04_varint_none_unbounded_alloc :
+  forall n, 0 < n -> n < USIZE_MOD ->
+  let e := varint_enc n in
+  let '(outs, st', _, _) := run_reader 1 (Varint None) (init_r (Varint None)) e (repeat (EvChunk 1) (length e)) in
+  outs = [RPend] /\ buf_len st' = n /\ filled st' = [].
+Proof. exact none_unbounded_alloc. Qed.
+Print Assumptions C04_varint_none_unbounded_alloc.
+
+(* flush_all's fuel is a modelling device: any fuel above the script length gives the same run *)
+Theorem C04_flush_all_fuel_adequate :
+  forall fuel fuel' (script : list wev) (w : wstate) (sent0 : list N) np,
+  (length script < fuel)%nat -> (length script < fuel')%nat ->
+  flush_all fuel script w sent0 np = flush_all fuel' script w sent0 np.
+Proof. exact flush_all_fuel. Qed.
+Print Assumptions C04_flush_all_fuel_adequate.
 
 (* The unsigned-varint length prefix: decoding the encoding gives the length back, and no proper
    prefix of an encoding decodes. *)
@@ -172,6 +273,20 @@ Example C04_nonvacuous_roundtrip :
   let '(outs, _, wire', _) := run_reader 400 c (init_r c) (sent s') (repeat (EvChunk 2) 400) in
   map fst rs = [WOk; WOk; WOk; WPend; WOk; WDenied; WOk; WOk; WPend; WPend] /\
   frames_of outs = [m1; m2; m3] /\ wire' = [].
+Proof. vm_compute. repeat split; reflexivity. Qed.
+
+(* mixed paths: a Sink frame is half written (carrier stalls after 3 bytes), then send_framed is
+   called: it first completes the queued frame, then writes its own; a write error in between is
+   reported and nothing is lost; the last message is flushed, then the substream is closed *)
+Example C04_nonvacuous_mixed :
+  let c := Varint None in
+  let a := repeat 9 50 in let b := repeat 20 4 in let d := repeat 30 5 in
+  let ops := [OSend a; OFlush; OFramed b; OSend d; OFlush; OFlush; OClose] in
+  let wscript := [WChunk 3; WPending] ++ repeat (WChunk 100) 5 ++ [WErr] ++ repeat (WChunk 100) 6 in
+  let '(rs, s') := run_ops 65536 c (init_sys wscript) ops in
+  let '(outs, _, wire', _) := run_reader 50 c (init_r c) (sent s') (repeat (EvChunk 1000) 50) in
+  map fst rs = [WOk; WPend; WOk; WOk; WIo; WOk; WOk] /\
+  sent s' = wire_of c [a; b; d] /\ shut s' = true /\ frames_of outs = [a; b; d].
 Proof. vm_compute. repeat split; reflexivity. Qed.
 
 (* Identity(2048) (above the 1024-byte initial buffer of the unrepaired code) reads a frame *)
